@@ -213,6 +213,15 @@ func Exponent(t *rapid.T, c core.Ctx, nd int64, label string) int32 {
 	anchors := []int64{0, 0, 0, int64(c.Emin), int64(c.Emin) - p + 1, int64(c.Emax), int64(c.Emin) / 2, int64(c.Emax) / 2}
 	a := rapid.SampledFrom(anchors).Draw(t, label+"anchor")
 	off := rapid.Int64Range(-p-3, p+3).Draw(t, label+"off")
+	if Pick(t, 16, label+"far") == 1 {
+		// far outside the context's own range (operands need not come from the context they
+		// are used in): several times the range away, in either direction
+		span := int64(c.Emax) - int64(c.Emin) + 2*p + 10
+		a = rapid.Int64Range(span, 3*span+200).Draw(t, label+"fara")
+		if rapid.Bool().Draw(t, label+"farneg") {
+			a = -a
+		}
+	}
 	return clampExp(a+off-nd+1, nd)
 }
 
